@@ -328,6 +328,8 @@ def _twin_of(p):
 
 
 def main(argv):
+    if os.environ.get("VF_REPO"):
+        sys.path.insert(0, os.environ["VF_REPO"])
     if argv[0] == "replay":
         code, msg = importlib.import_module("vflib.replay").replay_file(argv[1])
         print(msg)
